@@ -1,0 +1,36 @@
+//go:build verif
+// +build verif
+
+package engine
+
+// Lemma functions for the deductive verifier in /verif (govc); never called by production code.
+
+// lemmaFwdLoop / lemmaRevLoop: the canonical loop `for ; it.Valid(); it.Next()` visits exactly the
+// maximal run of in-range keys starting at the cursor, in order, truncated at Count.
+func lemmaFwdLoop(it *RangeLimitedIterator) int {
+	cnt := 0
+	for ; it.Valid(); it.Next() {
+		cnt++
+	}
+	return cnt
+}
+
+func lemmaRevLoop(it *RangeLimitedIterator) int {
+	cnt := 0
+	for ; it.Valid(); it.Next() {
+		cnt++
+	}
+	return cnt
+}
+
+func lemmaMergeOrderIndependent(a, b []byte) (uint64, uint64, error, error) {
+	m1 := &Uint64AddMerger{}
+	m1.MergeNewer(a)
+	m1.MergeOlder(b)
+	m2 := &Uint64AddMerger{}
+	m2.MergeNewer(b)
+	m2.MergeNewer(a)
+	r1, e1 := GetRocksdbUint64(m1.buf, nil)
+	r2, e2 := GetRocksdbUint64(m2.buf, nil)
+	return r1, r2, e1, e2
+}
